@@ -30,8 +30,13 @@ func cmdC03(args []string) {
 	seed := fs.Int64("seed", 1, "")
 	nh := fs.Int("histories", 10, "")
 	maxFiles := fs.Int("maxfiles", 40, "size of the file pool with fresh-instance baselines")
+	rgRules := fs.String("rgrules", "", "user rule file for the dynamic ruleguard checker (package-dependent filters)")
 	fs.Parse(args)
 	core.Init()
+	if *rgRules != "" {
+		// the dynamic-rules checker is part of the long-lived set like any other checker
+		core.SetParams(map[string]map[string]interface{}{"ruleguard": {"rules": *rgRules}})
+	}
 	out := core.NewOut(*outPath)
 	defer out.Close()
 	cnt := core.NewCounter()
